@@ -183,8 +183,13 @@ func trimStack(st string) string {
 // already recorded a violation (the blocked goroutines are then the symptom); otherwise it is a
 // harness error.
 func Bubble(r *Run, f func(t *testing.T)) {
+	var captured any
 	defer func() {
-		if x := recover(); x != nil {
+		x := recover()
+		if captured != nil {
+			panic(captured) // re-raised in the caller's goroutine, where Execute classifies it
+		}
+		if x != nil {
 			if s := fmt.Sprint(x); strings.Contains(s, "deadlock: main bubble goroutine has exited") {
 				if r.Viol != nil {
 					return
@@ -194,7 +199,19 @@ func Bubble(r *Run, f func(t *testing.T)) {
 			panic(x)
 		}
 	}()
-	synctest.Test(r.T, f)
+	synctest.Test(r.T, func(t *testing.T) {
+		defer func() {
+			if x := recover(); x != nil {
+				if _, ok := x.(InfraError); !ok {
+					if _, ok := x.(ErrTapeExhausted); !ok {
+						x = InfraError{fmt.Sprintf("panic in simulator goroutine: %v\n%s", x, debug.Stack())}
+					}
+				}
+				captured = x
+			}
+		}()
+		f(t)
+	})
 }
 
 // SortedKeys returns the sorted keys of a string-keyed map (never iterate maps in decision paths).
